@@ -14,6 +14,7 @@ import Lattigo.Model.Decomp
   moddownntt N Q gQ P gP levelQ levelP p1Q p1P             -> rows  ModDownQPtoQNTT
   decomp Q P hasP levelQ levelP nbPi d p0Q prevQ           -> rowsQ|rowsP
   decompntt N Q gQ P gP levelQ levelP nbPi size isNTT c2   -> rowsQ|rowsP/…  rlwe.Evaluator.DecomposeNTT (one pair per digit)
+  divci / moddownnttci / decompnttci      same as div (4 NTT kinds) / moddownntt / decompntt on a conjugate-invariant ring (NthRoot = 4N)
   mask w mask p1                          -> vec                    ring.MaskVec
   extsmall q0 P levelP row0               -> rows                   ringqp ExtendBasisSmallNormAndCenter
   extsmallntt N q0 g0 P gP levelP row0    -> rows                   rlwe.ExtendBasisSmallNormAndCenterNTTMontgomery
@@ -50,6 +51,35 @@ def divOp (kind : String) (n : Nat) (qs gs : List Nat) (level nb : Nat) (p0 : Li
 
 def handle (toks : List String) : String :=
   match toks with
+  | ["divci", kind, n, qs, gs, level, nb, p0] =>
+    match n.toNat?, parseVec? qs, parseVec? gs, level.toNat?, nb.toNat?, parseMat? p0 with
+    | some n, some qs, some gs, some level, some nb, some p0 =>
+      let T := Scaling.mkTabsCI n qs gs
+      let F := Scaling.xfCI
+      let pair (p1 : List (List Nat)) : String := s!"{showRows p1}|{showRows p0}"
+      match kind with
+      | "floorntt" => pair (Scaling.divFloorNTTX F T qs level p0)
+      | "roundntt" => pair (Scaling.divRoundNTTX F T qs level p0)
+      | "floormanyntt" => match Scaling.divFloorManyNTTX F T qs level nb p0 with
+          | some p1 => pair p1
+          | none => "panic"
+      | "roundmanyntt" => match Scaling.divRoundManyNTTX F T qs level nb p0 with
+          | some p1 => pair p1
+          | none => "panic"
+      | _ => badOp
+    | _, _, _, _, _, _ => badOp
+  | ["moddownnttci", n, Q, gQ, P, gP, lq, lp, p1Q, p1P] =>
+    match n.toNat?, parseVec? Q, parseVec? gQ, parseVec? P, parseVec? gP, lq.toNat?, lp.toNat?, parseMat? p1Q, parseMat? p1P with
+    | some n, some Q, some gQ, some P, some gP, some lq, some lp, some p1Q, some p1P =>
+      showRows (BasisExt.modDownQPtoQNTTX Scaling.xfCI (Scaling.mkTabsCI n Q gQ) (Scaling.mkTabsCI n P gP) Q P lq lp p1Q p1P)
+    | _, _, _, _, _, _, _, _, _ => badOp
+  | ["decompnttci", n, Q, gQ, P, gP, lq, lp, nbPi, size, isNTT, c2] =>
+    match n.toNat?, parseVec? Q, parseVec? gQ, parseVec? P, parseVec? gP, lq.toNat?, lp.toNat?, nbPi.toNat?, size.toNat?, isNTT.toNat?, parseMat? c2 with
+    | some n, some Q, some gQ, some P, some gP, some lq, some lp, some nbPi, some size, some isNTT, some c2 =>
+      match Decomp.decomposeNTTX Scaling.xfCI (Scaling.mkTabsCI n Q gQ) (Scaling.mkTabsCI n P gP) Q P lq lp nbPi size (isNTT != 0) c2 with
+      | some ds => "/".intercalate (ds.map fun (a, b) => s!"{showRows a}|{showRows b}")
+      | none => "panic"
+    | _, _, _, _, _, _, _, _, _, _, _ => badOp
   | ["div", kind, n, qs, gs, level, nb, p0] =>
     match n.toNat?, parseVec? qs, parseVec? gs, level.toNat?, nb.toNat?, parseMat? p0 with
     | some n, some qs, some gs, some level, some nb, some p0 => divOp kind n qs gs level nb p0
